@@ -186,7 +186,7 @@ class Models(object):
                      'isscalar', 'clip', 'cumsum', 'mean', 'sort', 'argsort', 'copy', 'meshgrid', 'allclose',
                      'isclose', 'expand_dims', 'broadcast_to', 'array_equal', 'count_nonzero', 'trapz',
                      'nanmedian', 'flip', 'tile', 'repeat', 'unravel_index', 'cumprod', 'take', 'ascontiguousarray',
-                     'column_stack', 'issubdtype', 'polyfit', 'polyval', 'fliplr', 'flipud', 'triu', 'tril'):
+                     'column_stack', 'issubdtype', 'polyfit', 'polyval', 'fliplr', 'flipud', 'triu', 'tril', 'copyto'):
             fn = getattr(self, 'np_' + name, None)
             if fn is None:
                 fn = self._unmodelled('np.' + name)
@@ -644,6 +644,22 @@ class Models(object):
             self.interp.on_store(a, ('put', ind), v)
         for k, i in enumerate(ind.items()):
             a.flat[i] = vals[k % len(vals)]
+
+    def np_copyto(self, dst, src, casting='same_kind', where=True):
+        if not isinstance(dst, Arr):
+            raise InterpTypeError('copyto: dst must be an array')
+        srcb = broadcast_to(self.np_asarray(src), dst.shape).items()
+        mask = [where] * dst.size if not isinstance(where, Arr) else broadcast_to(where, dst.shape).items()
+        if self.interp is not None and self.interp.on_store is not None:
+            self.interp.on_store(dst, ('copyto',), src)
+        for p, v, m in zip(dst.pos, srcb, mask):
+            if m is True or (isinstance(m, int) and not isinstance(m, bool) and m):
+                dst.buf.data[p] = v
+            elif m is False or m == 0:
+                continue
+            else:
+                dst.buf.data[p] = ndarr.mk_choice(m, v, dst.buf.data[p])
+            dst.buf.writes.append((p, 'np.copyto'))
 
     def np_diff(self, a, n=1, axis=-1):
         a = self.np_asarray(a)
